@@ -108,7 +108,7 @@ func runHistory() {
 			}
 		}
 	}
-	chk.Range(fmt.Sprintf("reader-object histories: 5 readers x {row, image} x ALL sequences of <=%d reads from a %d-symbol menu (plain, valid / wrong-parity 2- and 5-digit add-ons, wrong check digit, other number, other symbologies, EAN-8 / UPC-E symbols carrying the same eight digits, blank) on ONE reader object: the last outcome == the outcome of a fresh reader", depth, len(menu)), len(jobs),
+	chk.Range(fmt.Sprintf("reader-object histories: 5 readers x {row, image} x ALL sequences of <=%d reads from a %d-symbol menu (plain, valid / wrong-parity 2- and 5-digit add-ons, wrong check digit, other number, other symbologies, EAN-8 / UPC-E symbols carrying the same eight digits, blank) on ONE reader object (pairs also with Reset() between the reads): the last outcome == the outcome of a fresh reader", depth, len(menu)), len(jobs),
 		func(i int) string {
 			return fmt.Sprint(jobs[i].reader, " ", jobs[i].path, " first ", menu[jobs[i].first].Name)
 		},
@@ -143,6 +143,18 @@ func runHistory() {
 					chk.Violation("C10/reader-history/"+j.reader+"/"+cls, fmt.Sprintf("%s reader (%s path) after reading %v on the same object: the last symbol gives %s, a fresh reader gives %s", j.reader, j.path, names, got, fresh[final]), hcase{j.reader, j.path, names})
 				} else if len(seq) > 1 && last.err == nil {
 					l.Distinct("nontrivial", fmt.Sprint("hist", j.reader, j.path, seq))
+				}
+				if len(seq) == 2 {
+					// the same pair with the documented Reset() between the two reads
+					rd2 := newReader(j.reader)
+					read(rd2, j.reader, menu[seq[0]].mod, scale, j.path, menu[seq[0]].hints)
+					mc.Guard(func() { rd2.Reset() })
+					l2 := read(rd2, j.reader, menu[seq[1]].mod, scale, j.path, menu[seq[1]].hints)
+					l.Count("evaluations", 1)
+					if got := outcomeKey(l2); got != fresh[seq[1]] {
+						names := []string{menu[seq[0]].Name, "Reset()", menu[seq[1]].Name}
+						chk.Violation("C10/reader-history/"+j.reader+"/after-reset", fmt.Sprintf("%s reader (%s path) after reading %v on the same object: the last symbol gives %s, a fresh reader gives %s", j.reader, j.path, names, got, fresh[seq[1]]), hcase{j.reader, j.path, names})
+					}
 				}
 				if len(seq) < depth {
 					for k := range menu {
